@@ -697,7 +697,9 @@ def tier_space(tier):
             "u4": [("g++", "c++14", "exceptions"), ("g++", "c++14", "fno-exceptions"), ("clang++", "c++20", "exceptions"), ("clang++", "c++20", "fno-exceptions")],
             "u2": [],
         }
-    return {"u1_single": ALL_CFGS, "u1_double": ALL_CFGS, "u3": ALL_CFGS, "u3_keep": [c for c in ALL_CFGS if c[0] == "g++"], "u4": ALL_CFGS, "u2": ALL_CFGS}
+    return {"u1_single": ALL_CFGS, "u1_double": ALL_CFGS, "u3": ALL_CFGS, "u3_keep": [c for c in ALL_CFGS if c[0] == "g++"], "u4": ALL_CFGS,
+            # covering array first: if a deadline cuts U2 short, the completed configurations still pair every two configuration values
+            "u2": COVERING6 + [c for c in ALL_CFGS if c not in COVERING6]}
 
 
 def _run(ctx):
